@@ -9,7 +9,7 @@ def c03_jobs(tier):
     main = 'hier,synthetic,rebuild,rebuild_refused'
     return [job('galerkin-plain-t1', 'c03', 'plain', threads=1, shards=8 if q else 14, args=['--sub', main + ',degenerate'], timeout=3600 if q else 7200),
             # 17 threads: product() switches to the row-merge SpGEMM; clang/libomp build (never g++ above 16 threads)
-            job('galerkin-omp-t17', 'c03', 'plain-omp', threads=17, exclusive=True, env={'KMP_BLOCKTIME': '0'}, args=['--sub', main + ',degenerate', '--probe_all_below=0', '--stride=8' if q else '--stride=10'], timeout=3600 if q else 7200),
+            job('galerkin-omp-t17', 'c03', 'plain-omp', threads=17, exclusive=True, env={'KMP_BLOCKTIME': '0'}, args=['--sub', main + ',degenerate', '--probe_all_below=0', '--stride=8' if q else '--stride=20'], timeout=3600 if q else 7200),
             job('galerkin-asan-t1', 'c03', 'asan', threads=1, shards=4, args=['--sub', main, '--stride=5' if q else '--stride=8'], timeout=3600 if q else 7200),
             # degenerate inputs separately under ASan: a crash there must not cut the main ASan workload short
             job('degenerate-asan-t1', 'c03', 'asan', threads=1, shards=2, args=['--sub', 'degenerate'], timeout=3600),
@@ -19,7 +19,7 @@ PROPS['C03'] = dict(
     level='exploration', jobs=c03_jobs,
     rule='hier: seeded matrices from G1 (model and hard), G2, G3 (value- and structurally non-symmetric), G5 Kronecker blocks with aggr.block_size, random diagonally dominant, integer-valued grids / dd matrices / G7 patterns, cycling over the 4 coarsenings with randomised coarsening parameters (eps_strong, over_interp, relax, estimate_spectral_radius, power_iters, truncation, near-null-space vectors), coarse_enough, max_levels, direct_coarse, 15% of the inputs with shuffled rows; synthetic: integer A and integer transfer operators through the replaying policy for each of the 4 coarse_operator implementations; rebuild: 1-6 rebuilds per history drawn from {power-of-two scaled, scaled, perturbed, sign-changed off-diagonals, entries dropped, entries added, row-shuffled} followed by the original matrix; degenerate: 8 G6 sub-families x 4 coarsenings. A case is non-trivial when at least one coarsening step happened (degenerate: always); distinct = distinct (sub-check, descriptor) hash.',
     exhaustive_note='none (all four coarsenings x both SpGEMM algorithms are enumerated; inputs are sampled)',
-    min_nontrivial=dict(quick=400, thorough=2500),
+    min_nontrivial=dict(quick=400, thorough=6000),
     require_obs=dict(quick=['rebuilds_checked', 'exact_hierarchies', 'synthetic_coarse_operators'], thorough=['rebuilds_checked', 'exact_hierarchies', 'synthetic_coarse_operators']),
     assumptions=COMMON_ASSUME + ['bitwise rebuild-vs-fresh comparisons are made inside one process at one thread count',
                                  'transfer operators containing NaN/Inf (finding F12, energy-minimising coarsening) are counted as an observation and excluded from the value comparison: the choice of P and R is not this property'],
